@@ -1,7 +1,7 @@
 (* C05 — property theorems only: each closed by [exact] and followed by Print Assumptions. *)
 From Coq Require Import List Arith NArith ZArith.
 From AV Require Import Model.C05_Enc Model.C05_Levels.
-From AV Require Import Proofs.C05_Bits Proofs.C05_BitWriter Proofs.C05_Rle Proofs.C05_Wrap Proofs.C05_Delta Proofs.C05_Plain Proofs.C05_Levels Proofs.C05_Examples.
+From AV Require Import Proofs.C05_Bits Proofs.C05_BitWriter Proofs.C05_BitReader Proofs.C05_Rle Proofs.C05_Wrap Proofs.C05_Delta Proofs.C05_Plain Proofs.C05_Levels Proofs.C05_Examples.
 Import ListNotations.
 
 (* BitWriter::put_value / BitReader::get_value at the bit-stream level: packing n values of any width w
@@ -20,6 +20,15 @@ Theorem bitwriter_put_value_spec : forall ops : list (N * N),
   bw_run ops = bits_to_bytes (flat_map (fun p => bits_of (N.to_nat (snd p)) (fst p)) ops).
 Proof. exact C05_BitWriter.bitwriter_spec. Qed.
 Print Assumptions bitwriter_put_value_spec.
+
+(* M = S: the word-level BitReader::get_value (buffered 64-bit word, reload when a read crosses it, split
+   reads, None when fewer than w bits remain) cuts the LSB-first bit stream - for every byte buffer and
+   every sequence of widths <= 64 *)
+Theorem bitreader_get_value_spec : forall (data : list N) (ws : list N),
+  Forall (fun w => (w <= 64)%N) ws ->
+  br_run data br_new ws = br_run_spec (bytes_bits data) ws.
+Proof. exact C05_BitReader.bitreader_spec. Qed.
+Print Assumptions bitreader_get_value_spec.
 
 (* put_vlq_int / get_vlq_int: every u64 survives, 10 bytes suffice *)
 Theorem vlq_roundtrip : forall (n : N) (rest : list N),
